@@ -326,6 +326,93 @@ def install(mods):
 
         hier.Producer.__init__ = prod_init
 
+    # ---- the answers of the symbol tables must be those for the *current*
+    # input (C16/C17 in real runs): wherever the main thread starts to
+    # generate simplifications for an input, the answers ddSMT would give now
+    # (defined functions, sorts of all subterms) are compared with the
+    # answers after a fresh collect_information on that very input; the
+    # tables themselves are put back afterwards, so the run is not healed
+    if 'tables' in mon:
+        TABLES = ['__constants', '__defined_functions',
+                  '__definition_node_ids', '__sort_lookup', '__indices',
+                  '__get_sort_cache', '__datatypes_constants',
+                  '__datatypes_constructors', '__datatypes_selectors']
+
+        def answers(exprs):
+            from vlib import refreader
+            defs = {}
+            for k, v in vars(smtlib)['__defined_functions'].items():
+                try:
+                    cmd = v[1].__defaults__[0]
+                    defs[str(k)] = (v[0], refreader.render(
+                        refreader.from_nodes([cmd])).strip())
+                except Exception as e:  # noqa
+                    defs[str(k)] = ('?', repr(e))
+            sorts = []
+            for n in nodes.dfs(exprs):
+                try:
+                    so = smtlib.get_sort(n)
+                    sorts.append(None if so is None else str(so))
+                except Exception as e:  # noqa
+                    sorts.append('!' + type(e).__name__)
+            return defs, sorts
+
+        def tables_check(exprs, where):
+            if threading.current_thread() is not threading.main_thread():
+                return
+            key = (id(exprs), leaf_digest(exprs))
+            if _STATE.get('tables_last') == key:
+                return
+            _STATE['tables_last'] = key
+            try:
+                old_defs, old_sorts = answers(exprs)
+                saved = {k: vars(smtlib)[k] for k in TABLES}
+                try:
+                    smtlib.collect_information(exprs)
+                    new_defs, new_sorts = answers(exprs)
+                finally:
+                    for k, v in saved.items():
+                        setattr(smtlib, k, v)
+                stale_defs = [
+                    (k, old_defs[k][1], new_defs[k][1]) for k in old_defs
+                    if k in new_defs and old_defs[k] != new_defs[k]]
+                terms = list(nodes.dfs(exprs))
+                stale_sorts = [
+                    (str(terms[i])[:80], o, n_)
+                    for i, (o, n_) in enumerate(zip(old_sorts, new_sorts))
+                    if o is not None and not str(o).startswith('!') and
+                    not str(n_).startswith('!') and o != n_]
+                emit('tables', where=where, nodes=len(terms),
+                     defs=len(new_defs), known_sorts=sum(
+                         1 for x in new_sorts if x is not None),
+                     stale_defs=stale_defs[:3], stale_sorts=stale_sorts[:3],
+                     base=leaf_digest(exprs))
+            except Exception as e:  # noqa
+                emit('monitor_error', where='tables', error=repr(e))
+
+        orig_tg_init_t = ddmin.TaskGenerator.__init__
+
+        def tg_init_t(self, exprs, gran, mutator, max_depth=None):
+            tables_check(exprs, 'TaskGenerator.__init__')
+            return orig_tg_init_t(self, exprs, gran, mutator, max_depth)
+
+        ddmin.TaskGenerator.__init__ = tg_init_t
+        orig_tg_next_t = ddmin.TaskGenerator.__next__
+
+        def tg_next_t(self):
+            if not self.stopped:
+                tables_check(self.exprs, 'TaskGenerator.__next__')
+            return orig_tg_next_t(self)
+
+        ddmin.TaskGenerator.__next__ = tg_next_t
+        orig_prod_init_t = hier.Producer.__init__
+
+        def prod_init_t(self, muts, abort_flag, original):
+            tables_check(original, 'Producer.__init__')
+            return orig_prod_init_t(self, muts, abort_flag, original)
+
+        hier.Producer.__init__ = prod_init_t
+
     if 'redup' in mon:
         orig_redup = nodes.reduplicate
 
